@@ -3,6 +3,7 @@ package parser
 import (
 	"fmt"
 	"go/ast"
+	goparser "go/parser"
 	"go/token"
 	"go/types"
 	"regexp"
@@ -130,6 +131,9 @@ func (p *Parser) parseNotationInComments(notations []*ast.Comment, validOps map[
 			// white space that split the arguments above (strings.Fields).
 			rest := strings.TrimLeftFunc(m[2], unicode.IsSpace)
 			literal := strings.TrimLeftFunc(strings.TrimPrefix(rest, args[0]), unicode.IsSpace)
+			if _, perr := goparser.ParseExpr(literal); perr != nil {
+				return logger.Errorf("%v: invalid <literal> arg: %v", p.fset.Position(n.Pos()), perr)
+			}
 			setter := option.NewLiteralSetter(args[0], literal, n.Pos())
 			opts.Literals = append(opts.Literals, setter)
 		case "preprocess":
